@@ -37,6 +37,22 @@ CHECKS["C16"] = dict(
     design_ref="DESIGN.md section 4, C16",
     note="Not decided: what an installed reporter does with the text.")
 
+CHECKS["C12"] = dict(
+    technique="lock-state dataflow over CFGs x calling contexts along the resolved call graph (LOCK), "
+              "who-may-create for synchronisation objects, critical-section counting per operation",
+    text="Sound per-thread over-approximation: from every user-code entry in the analysed units, on every path "
+         "and call chain (virtual calls/destructors by class-hierarchy analysis, implicit destructor calls from "
+         "the CFG, libstdc++ bodies followed), each access to the shared-state table (expectation and sequence "
+         "links, call counters and limits, reported flag, monitor slot) happens with the single global lock held; "
+         "destructor tails are accepted only below a locked detach of the same sub-object; there is exactly one "
+         "synchronisation object; each listed operation is one critical section. Because the argument is per "
+         "thread and per path, it covers every schedule and any number of threads, which no stress run can.",
+    design_ref="DESIGN.md section 4, C12",
+    note="Exemptions (named, with reasons, in rules/C12.py): sequence-object destruction, mock move, "
+         "set_sequence's copy of the never-registered old handler, TIMES before IN_SEQUENCE. Not decided: "
+         "user callbacks, reporter/tracer installation. Linearizability is argued from one lock + one critical "
+         "section per operation (written argument), the sequential behaviour being C01-C08/C13.")
+
 NOT_APPLICABLE = {}
 
 
